@@ -575,8 +575,23 @@ def gen_w(rng, malformed=False):
         elif r < .93:
             # class statements through the real metaclass
             name = new_class()
-            kind = rng.choice(['sub', 'sub', 'subbad', 'holder', 'rsub', 'multi', 'nobase'] if not malformed
-                              else ['subbad', 'multi', 'holder', 'nobase', 'reserved', 'sub'])
+            kind = rng.choice(['sub', 'sub', 'subbad', 'holder', 'rsub', 'multi', 'nobase', 'twoholders'] if not malformed
+                              else ['subbad', 'multi', 'holder', 'nobase', 'reserved', 'sub', 'twoholders'])
+            if kind == 'twoholders':
+                # two registered holders: same keys in another order (accepted), same SIZE but different keys / different size (TypeError)
+                k1 = rng.sample(['a', 'b', 'c', 'd'], rng.randint(1, 3))
+                k2 = rng.choice([list(reversed(k1)), k1[:-1] + ['q'], k1 + ['q'], k1[1:] + ['zz']])
+                n2, n3 = new_class(), new_class()
+                ops.append(('C', name, ['SimpleConfig'], [(k, g_val(rng)) for k in k1]))
+                ops.append(('H', 'SimpleConfig', name))
+                ops.append(('C', n2, ['SimpleConfig'], [(k, g_val(rng)) for k in k2]))
+                ops.append(('H', 'SimpleConfig', n2))
+                ops.append(('C', n3, [name, n2] if rng.random() < .7 else [n2, name], [(k, g_val(rng)) for k in k1[:1]]))
+                ops.append(('K', n2))
+                classes[name] = dict(keys=k1, tainted=False)
+                classes[n2] = dict(keys=k2, tainted=False)
+                own[name], own[n2] = k1, k2
+                continue
             if kind in ('sub', 'subbad'):
                 base = rng.choice([c for c, i in classes.items() if i['keys']])
                 keys = classes[base]['keys']
@@ -853,7 +868,11 @@ def oracle_cross_app(steps, cfg_b):
                 serve(a, st[1], st[2], st[3])
             elif k == 'copy':
                 c = a.request.copy()
-                c.config  # noqa
+                if c.config is a.request.config or c.config is a.config or c.config is b.request.config:
+                    bad.append(('copy-shares-namespace', 'request.copy() holds the NameSpace object of an existing request / application'))
+                    break
+                c.config['debug'] = 'edited-in-copy'
+                c.config.update({'max_body_size': -1})
             elif k == 'copy_b_source':
                 # a request of A built from B's request config
                 a.request.setup(b.request.config)
@@ -1134,7 +1153,8 @@ def search_stream(rng, n, pid, stats, seeds=()):
     for _ in range(n // 10):
         keys = rng.sample(['a', 'b', 'c', 'dd', '_e'], rng.randint(1, 4))
         body = rng.sample(['a', 'b', 'c', 'dd', '_e', 'zz', '_p', '__x__', 'A'], rng.randint(0, 4))
-        second = None if rng.random() < .4 else rng.choice([list(keys), list(reversed(keys)), rng.sample(['a', 'b', 'q'], 2)])
+        second = None if rng.random() < .3 else rng.choice([list(keys), list(reversed(keys)), rng.sample(['a', 'b', 'q'], 2),
+                                                            keys[:-1] + ['q'], keys[1:] + ['zz'], keys + ['q']])
         cases.append(('meta', (keys, body, second)))
     for _ in range(n // 6):
         cases.append(('cp', gen_cp(rng)))
